@@ -16,7 +16,7 @@ export CARGO_NET_OFFLINE=true
 [[ -f "$DIFF" ]] || { echo "no diff $DIFF"; exit 2; }
 mkdir -p "$OUT"
 [[ -d $S/repo ]] || /verif/tools/scratch_env.sh lane$LANE init >/dev/null
-git -C $S/repo checkout -q -- . ; git -C $S/repo clean -fdq; git -C $S/repo checkout -q --detach $(git -C /repo rev-parse HEAD)
+git -C $S/repo reset -q --hard; git -C $S/repo clean -fdq; git -C $S/repo checkout -q --detach $(git -C /repo rev-parse HEAD)
 if ! git -C $S/repo apply "$DIFF" 2>$OUT/apply.err; then echo "$ID-$I: diff does not apply"; cat $OUT/apply.err; exit 2; fi
 cp "$DIFF" $OUT/patch.diff
 # 1. repository suite
